@@ -276,6 +276,12 @@ static int bfs_replay(const mc_harness *h)
         if (r == MC_VIOL) { printf("    sig=%s\n    %s\n", fail_sig, fail_diag); res = fail_sig; break; }
         if (r == MC_SKIP && i < n - 1) { printf("    (disabled event inside a path: replay diverged)\n"); res = "diverged"; break; }
     }
+    if (h->probe && !strcmp(res, "none")) {
+        failed = 0; fail_sig[0] = 0; fail_diag[0] = 0;
+        printf("--- probing the final state\n");
+        h->probe();
+        if (failed) { printf("    sig=%s\n    %s\n", fail_sig, fail_diag); res = fail_sig; }
+    }
     printf("REPLAY-RESULT sig=%s\n", res);
     return 0;
 }
@@ -307,7 +313,7 @@ int mc_main(int argc, char **argv, const mc_harness *h)
     uint64_t hh[2]; int isnew;
     w_hash(hh); find_or_add(hh, 0, 0, 0, &isnew);
 
-    long transitions = 0, nontrivial = 0, replayed = 0;
+    long transitions = 0, nontrivial = 0, replayed = 0, probes = 0;
     int  depth_done = 0, fixpoint = 0, truncated = 0, maxdepth_seen = 0;
     const char *stop_reason = "";
     long idx;
@@ -344,7 +350,15 @@ int mc_main(int argc, char **argv, const mc_harness *h)
             if (hh[0] != nd.h[0] || hh[1] != nd.h[1]) ev_changed[e]++;
             long t = find_or_add(hh, (uint32_t)idx, e, d + 1, &isnew);
             (void)t;
-            if (isnew == 1) { ev_new[e]++; if (d + 1 > maxdepth_seen) maxdepth_seen = d + 1; }
+            if (isnew == 1) {
+                ev_new[e]++; if (d + 1 > maxdepth_seen) maxdepth_seen = d + 1;
+                if (h->probe) {
+                    failed = 0; fail_sig[0] = 0; fail_diag[0] = 0; in_step = 1;
+                    h->probe();
+                    in_step = 0; progress++; probes++;
+                    if (failed) record_violation(fail_sig, fail_diag);
+                }
+            }
             if (isnew < 0) { truncated = 1; stop_reason = "state limit"; break; }
         }
         if (truncated) break;
@@ -354,9 +368,9 @@ int mc_main(int argc, char **argv, const mc_harness *h)
     /* result */
     printf("MCRESULT {\"property\":\"%s\",\"harness\":\"%s\",\"cfg\":%d,\"cfg_name\":", h->property, h->name, o_cfg);
     json_str(stdout, h->cfg_name ? h->cfg_name(o_cfg) : "");
-    printf(",\"kind\":\"bfs\",\"events\":%d,\"states\":%ld,\"transitions\":%ld,\"replayed_steps\":%ld,\"depth_bound\":%d,\"depth_done\":%d,"
+    printf(",\"kind\":\"bfs\",\"events\":%d,\"states\":%ld,\"transitions\":%ld,\"replayed_steps\":%ld,\"probed_states\":%ld,\"depth_bound\":%d,\"depth_done\":%d,"
            "\"fixpoint\":%s,\"truncated\":%s,\"stop\":\"%s\",\"outcomes\":%ld,\"nontrivial\":%ld,\"violations\":%ld,\"snap_bytes\":%zu,\"wall_s\":%.2f,",
-           nev, n_nodes, transitions, replayed, max_depth, depth_done, fixpoint ? "true" : "false", truncated ? "true" : "false",
+           nev, n_nodes, transitions, replayed, probes, max_depth, depth_done, fixpoint ? "true" : "false", truncated ? "true" : "false",
            stop_reason, n_outcomes, nontrivial, n_viol, ssz, now_s() - t_start);
     printf("\"dead_events\":[");
     int first = 1;
